@@ -5,6 +5,8 @@
 import Minicbor.Lemmas.SkipLocal
 import Minicbor.Lemmas.SkipExact
 import Minicbor.Lemmas.SkipExt
+import Minicbor.Lemmas.SkipNoAlloc
+import Minicbor.Lemmas.SkipMem
 
 namespace Minicbor.C06
 open Dec
@@ -54,5 +56,88 @@ theorem skip_prefix_err' (w : WItem) (p : Bytes) (hv : w.Valid) (hfit : FitsSlic
   obtain ⟨q, hq⟩ := hp
   refine skip_prefix_err w p q hv hfit hq.symm ?_
   intro e; subst e; simp at hq; exact hne hq
+
+/-- an indefinite-length array or map occurs somewhere inside a definite-length array or map
+    (the nesting the no-alloc build documents as unsupported). -/
+abbrev HasIndefInsideDef (w : WItem) : Prop := w.indefInDef = true
+
+/-- **lockstep of the two builds on ARBITRARY bytes**: the no-alloc `skip` either computes
+    exactly what the alloc `skip` computes (same result, same position) or returns the
+    documented `message` error. -/
+theorem noalloc_lockstep (bs : Bytes) :
+    Dec.skip false bs = Dec.skip true bs ∨ ∃ r, Dec.skip false bs = .err .message r :=
+  Dec.skip_lock bs
+
+/-- whenever the no-alloc `skip` returns `ok`, so does the alloc `skip`, at the same position
+    (arbitrary bytes, not only valid items): never a wrong position. -/
+theorem noalloc_refines (bs r : Bytes) (h : Dec.skip false bs = .ok () r) :
+    Dec.skip true bs = .ok () r := by
+  rcases noalloc_lockstep bs with he | ⟨r', he⟩
+  · rw [← he]; exact h
+  · rw [he] at h; cases h
+
+/-- the no-alloc build is exact on every well-formed item that does not nest an indefinite
+    array/map inside a definite one. -/
+theorem noalloc_exact (w : WItem) (rest : Bytes) (hv : w.Valid) (hfit : FitsSlice w)
+    (hs : ¬ HasIndefInsideDef w) : Dec.skip false (encW w ++ rest) = .ok () rest :=
+  Dec.skip_noalloc_encW w rest hv (by simpa [HasIndefInsideDef] using hs)
+    (by unfold FitsSlice at hfit; unfold U64MAX; omega)
+
+/-- **no-alloc build**: on a well-formed item followed by arbitrary bytes it returns either
+    the exact position, or the documented unsupported-nesting error — and the latter only if
+    the tree really has an indefinite array/map inside a definite one. -/
+theorem noalloc_exact_or_unsupported (w : WItem) (rest : Bytes) (hv : w.Valid) (hfit : FitsSlice w) :
+    Dec.skip false (encW w ++ rest) = .ok () rest ∨
+    ((∃ r, Dec.skip false (encW w ++ rest) = .err .message r) ∧ HasIndefInsideDef w) := by
+  by_cases hs : HasIndefInsideDef w
+  · rcases noalloc_lockstep (encW w ++ rest) with he | he
+    · left; rw [he]; exact skip_exact w rest hv hfit
+    · right; exact ⟨he, hs⟩
+  · left; exact noalloc_exact w rest hv hfit hs
+
+/-- on a strict prefix the no-alloc build never returns `ok` either. -/
+theorem noalloc_prefix_err (w : WItem) (p q : Bytes) (hv : w.Valid) (hfit : FitsSlice w)
+    (hp : encW w = p ++ q) (hq : q ≠ []) : ∃ e r, Dec.skip false p = .err e r := by
+  cases h : Dec.skip false p with
+  | ok u r =>
+    obtain ⟨e, r', he⟩ := skip_prefix_err w p q hv hfit hp hq
+    rw [noalloc_refines p r h] at he; cases he
+  | err e r => exact ⟨e, r, rfl⟩
+  | panic => exact absurd h (skip_no_panic false p)
+
+/-- fuel adequacy (termination / proportional work): the skip loop started with more fuel than
+    remaining bytes never runs dry, because every iteration consumes at least one byte. -/
+theorem skip_fuel_adequate (alloc : Bool) (fuel : Nat) (s : SkipSt) (bs : Bytes)
+    (h : bs.length < fuel) : Dec.skipLoop alloc fuel s bs ≠ .panic :=
+  Dec.skipLoop_ne_panic alloc fuel s bs h
+
+/-- memory bound on ARBITRARY bytes (for C02): at every head of the `while` loop
+    (`Reach` = small-step semantics of the loop of `skip` started on `bs0`) the number of
+    stack frames plus `irounds` is at most the number of bytes consumed so far. -/
+theorem skip_stack_le_consumed (alloc : Bool) (bs0 : Bytes) (s : SkipSt) (bs : Bytes)
+    (h : Reach alloc bs0 s bs) : s.stack.length + s.ir + bs.length ≤ bs0.length :=
+  reach_stack_le_consumed alloc bs0 s bs h
+
+/-! ### non-vacuity -/
+
+/-- `[_ 1, [2, {_ 3: h'' }]], 4` nested: an indefinite array and an indefinite map inside definite arrays. -/
+def sample : WItem :=
+  .array .w0 [.arrayI [.uint .w0 1, .array .w1 [.uint .w0 2, .mapI [.uint .w0 3, .bytesI [(.w0, [1, 2])]]]],
+              .tag .w0 1 (.uint .w0 4)]
+
+example : sample.Valid ∧ FitsSlice sample ∧ HasIndefInsideDef sample := by
+  refine ⟨by decide, by decide, by decide⟩
+
+/-- the alloc build skips it exactly; the no-alloc build refuses it. -/
+example : Dec.skip true (encW sample ++ [0xff, 0x00]) = .ok () [0xff, 0x00] :=
+  skip_exact sample _ (by decide) (by decide)
+
+example : ∃ r, Dec.skip false (encW sample) = .err .message r := ⟨(encW sample).drop 2, rfl⟩
+
+/-- a supported nesting for the no-alloc build: an indefinite array as the last pending item. -/
+def sample2 : WItem := .arrayI [.array .w0 [.uint .w0 1, .textI [(.w0, [0x61])]], .mapI []]
+
+example : sample2.Valid ∧ FitsSlice sample2 ∧ ¬ HasIndefInsideDef sample2 := by
+  refine ⟨by decide, by decide, by decide⟩
 
 end Minicbor.C06
